@@ -19,8 +19,10 @@ import cfdm
 
 REF_ATTRS = ("coordinates", "bounds", "climatology", "cell_measures", "ancillary_variables",
              "cell_methods", "grid_mapping", "formula_terms", "dimensions", "geometry",
-             "external_variables")
+             "external_variables", "compress", "sample_dimension", "instance_dimension")
 
+
+KEEP_GROUPS = True     # set per case: False when the write option group=False flattens the dataset
 
 INHERITED_BY_BOUNDS = ("units", "calendar", "standard_name", "axis", "positive", "leap_month", "leap_year", "month_lengths")
 
@@ -159,6 +161,11 @@ def build(spec, expect=False):
         axes = [akeys[a] if isinstance(a, int) else a for a in cm["axes"]]
         m = cfdm.CellMethod(axes=axes, method=cm["method"], qualifiers=cm.get("quals") or {})
         f.set_construct(m)
+    grp = spec.get("groups") or {}
+    if grp.get("field"):
+        f.nc_set_variable_groups(grp["field"])
+    for j, g_ in (grp.get("cons") or {}).items():
+        f.constructs[ckeys[int(j)]].nc_set_variable_groups(g_)
     for r in spec.get("refs", []):
         cr = cfdm.CoordinateReference()
         if r.get("ncvar") is not None:
@@ -627,6 +634,13 @@ def fingerprint(f):
     names = []
     if f.nc_get_variable(None) is not None:
         names.append(["self", "var", f.nc_get_variable()])
+    if KEEP_GROUPS:
+        # the group a netCDF variable lives in is part of its name (cfdm.write(group=True), the default)
+        if f.nc_variable_groups():
+            names.append(["self", "grp", "/".join(f.nc_variable_groups())])
+        for k, (t, x) in meta.items():
+            if hasattr(x, "nc_variable_groups") and x.nc_variable_groups():
+                names.append([chash[k], "grp", "/".join(x.nc_variable_groups())])
     # the element dimensions of a ragged array are not netCDF dimensions of the dataset (CF 9.3): no name to keep
     element_axes = set()
     if is_field and f.has_data() and f.data.get_compression_type().startswith("ragged"):
@@ -659,6 +673,9 @@ def fingerprint(f):
         if r.nc_get_variable(None) is not None:
             names.append([h({p: jval(v) for p, v in sorted(r.coordinate_conversion.parameters().items())}), "var",
                           r.nc_get_variable()])
+    if not KEEP_GROUPS:
+        # group=False flattens the dataset: a variable keeps the last component of its name
+        names = [[a, b, n.split("/")[-1]] if b in ("var", "bvar") else [a, b, n] for a, b, n in names]
     return fp, sorted(names)
 
 
@@ -768,6 +785,8 @@ def run_case(c, scratch, n):
     if "spec" in c and c.get("expect_masked"):
         fx = build(c["spec"], expect=True)
     opts = dict(c.get("options") or {})
+    global KEEP_GROUPS
+    KEEP_GROUPS = opts.get("group", True) is not False
     fn = os.path.join(scratch, f"c01_{os.getpid()}_{n}.nc")
     ext = None
     if opts.pop("external_file", False):
@@ -794,6 +813,7 @@ def run_case(c, scratch, n):
             kw["domain"] = True
         if ext is not None and os.path.exists(ext):
             kw["external"] = ext
+        kw.update(c.get("read") or {})
         gs = cfdm.read(fn, **kw)
     except Exception as ex:
         row["read_err"] = type(ex).__name__ + ": " + str(ex)[:300]
